@@ -178,3 +178,161 @@ func VerifPageSelection() {
 		}
 	}
 }
+
+// ---- syntax: the language accepted by ParsePageSelection's regular expression ----
+
+// verifGrammarSMT is the documented selection grammar as an SMT-LIB regular language, written
+// independently of the implementation's pattern.
+const verifGrammarSMT = `(let ((num (re.+ (re.range "0" "9"))))
+ (let ((core (re.union num
+   (re.++ (str.to_re "-") num)
+   (re.++ num (str.to_re "-"))
+   (re.++ num (str.to_re "-") num)
+   (str.to_re "l")
+   (re.++ (str.to_re "l-") num)
+   (re.++ (str.to_re "l-") num (str.to_re "-"))
+   (str.to_re "-l")
+   (re.++ (str.to_re "-l-") num)
+   (re.++ num (str.to_re "-l"))
+   (re.++ num (str.to_re "-l-") num))))
+ (let ((term (re.union (str.to_re "even") (str.to_re "odd") (re.++ (re.opt (re.union (str.to_re "!") (str.to_re "n"))) core))))
+  (re.++ term (re.* (re.++ (str.to_re ",") term))))))`
+
+func verifIsNum(s string) bool {
+	if s == "" {
+		return false
+	}
+	for i := 0; i < len(s); i++ {
+		if s[i] < '0' || s[i] > '9' {
+			return false
+		}
+	}
+	return true
+}
+
+func verifSplit(s string, sep byte) []string {
+	var out []string
+	start := 0
+	for i := 0; i < len(s); i++ {
+		if s[i] == sep {
+			out = append(out, s[start:i])
+			start = i + 1
+		}
+	}
+	return append(out, s[start:])
+}
+
+// verifInGrammar recognises the same grammar in plain Go (used to judge a witness natively).
+func verifInGrammar(s string) bool {
+	for _, t := range verifSplit(s, ',') {
+		if t == "even" || t == "odd" {
+			continue
+		}
+		if t != "" && (t[0] == '!' || t[0] == 'n') {
+			t = t[1:]
+		}
+		p := verifSplit(t, '-')
+		ok := false
+		switch len(p) {
+		case 1:
+			ok = verifIsNum(p[0]) || p[0] == "l"
+		case 2:
+			ok = p[0] == "" && verifIsNum(p[1]) || // -#
+				verifIsNum(p[0]) && p[1] == "" || // #-
+				verifIsNum(p[0]) && verifIsNum(p[1]) || // #-#
+				p[0] == "l" && verifIsNum(p[1]) || // l-#
+				p[0] == "" && p[1] == "l" || // -l
+				verifIsNum(p[0]) && p[1] == "l" // #-l
+		case 3:
+			ok = p[0] == "l" && verifIsNum(p[1]) && p[2] == "" || // l-#-
+				p[0] == "" && p[1] == "l" && verifIsNum(p[2]) || // -l-#
+				verifIsNum(p[0]) && p[1] == "l" && verifIsNum(p[2]) // #-l-#
+		}
+		if !ok {
+			return false
+		}
+	}
+	return true
+}
+
+// VerifPageSelectionSyntax: the set of strings ParsePageSelection accepts is exactly the documented
+// grammar (decided as a regular-language equivalence, unbounded in string length); a witness of a
+// difference is confirmed against the real ParsePageSelection.
+func VerifPageSelectionSyntax() {
+	re := setupRegExpForPageSelection()
+	w, differ := vp.RegexDiffWitness(re, verifGrammarSMT)
+	if differ {
+		_, err := ParsePageSelection(w)
+		accepted := err == nil && w != ""
+		vp.Assert(accepted == verifInGrammar(w), "ParsePageSelection accepts a string outside the selection syntax, or rejects one inside it")
+	}
+	vp.Assert(selectedPagesRegExp != nil, "page selection pattern did not compile")
+}
+
+// VerifPageRemoval: RemainingPagesForPageRemoval == complement (within 1..P) of the selection.
+func VerifPageRemoval() {
+	P := vp.IntRange(0, vp.Bound("P"))
+	t := verifDrawTerm()
+	vp.Assume(t.shape != vsEven && t.shape != vsOdd || true)
+	sel, err := PagesForPageSelection(P, []string{t.text}, false, false)
+	vp.Assert(err == nil, "PagesForPageSelection failed")
+	rem, err := RemainingPagesForPageRemoval(P, []string{t.text}, false)
+	vp.Assert(err == nil, "RemainingPagesForPageRemoval failed")
+	for p := 1; p <= P; p++ {
+		vp.Assert(rem[p] == !sel[p], "remaining pages are not the complement of the removed pages")
+	}
+	vp.Assert(!rem[0] && !rem[P+1], "remaining pages contain a page outside 1..page count")
+}
+
+// VerifPageCollection: PagesForPageCollection lists pages in term order with repetitions; a negated
+// term deletes every earlier occurrence of its pages; all entries are within 1..P.
+func VerifPageCollection() {
+	P := vp.IntRange(0, vp.Bound("P"))
+	T := vp.IntRange(1, vp.Bound("T"))
+	terms := make([]verifTerm, T)
+	sel := make([]string, T)
+	for i := range terms {
+		terms[i] = verifDrawTerm()
+		sel[i] = terms[i].text
+	}
+	got, err := PagesForPageCollection(P, sel)
+	// reference list; membership conditions are forked (vp.Fork) so that the list has a concrete shape
+	var want []int
+	for _, t := range terms {
+		for p := 1; p <= P; p++ {
+			in := false
+			switch t.shape {
+			case vsEven:
+				in = p%2 == 0
+			case vsOdd:
+				in = p%2 == 1
+			default:
+				in = vp.Fork(verifInTerm(t, p, P))
+			}
+			if !in {
+				continue
+			}
+			if !t.neg {
+				want = append(want, p)
+				continue
+			}
+			var kept []int
+			for _, q := range want {
+				if q != p {
+					kept = append(kept, q)
+				}
+			}
+			want = kept
+		}
+	}
+	if len(want) == 0 {
+		vp.Assert(err != nil, "an empty page collection was not reported")
+		return
+	}
+	vp.Assert(err == nil, "PagesForPageCollection rejected an expression of the documented grammar")
+	vp.Assert(len(got) == len(want), "page collection has the wrong number of entries")
+	for i := range want {
+		vp.Assert(got[i] == want[i], "page collection differs from term-order evaluation")
+		vp.Assert(got[i] >= 1 && got[i] <= P, "page collection contains a page outside 1..page count")
+	}
+}
